@@ -129,6 +129,10 @@ def gen_history(rng, n, nops):
             kws = [same_type_cond(rng, trows, n, extras) for _ in range(rng.choice([0, 1, 1, 2]))]
             if len(set(k for k, _ in kws)) < len(kws):
                 kws = kws[:1]
+            if used_kws and rng.random() < 0.4:
+                kws = list(rng.choice(used_kws))   # the same question as before, asked again after the table changed
+            elif kws:
+                used_kws.append(list(kws))
             if rng.random() < 0.15:
                 kws.append((rng.choice(['foo', 'no_zz']), 1))
             ops.append({'name': 'get', 'columns': cl, 'tn': rng.choice(['ATOM', 'atom']), 'kw': jkw(kws), 'kind': 'query',
